@@ -45,7 +45,7 @@ func (c *ColNamed[T]) Infer(t ColumnType) error {
 	return nil
 }
 
-func (c *ColNamed[T]) Prepare() error {
+func (c ColNamed[T]) Prepare() error {
 	if v, ok := c.ColumnOf.(Preparable); ok {
 		if err := v.Prepare(); err != nil {
 			return errors.Wrap(err, "named")
